@@ -105,7 +105,15 @@ func (g *nestGen) body(ind, depth, fi int, deferred bool) {
 	}
 	for i := 0; i < n && g.budget > 0; i++ {
 		g.budget--
-		switch k := g.r.Intn(100); {
+		switch k := g.r.Intn(108); {
+		case k >= 100:
+			// a panic that is raised and recovered inside one call
+			g.emit(ind, "func() {")
+			g.emit(ind+1, "defer func() {")
+			g.emit(ind+2, "pkg.Got(recover())")
+			g.emit(ind+1, "}()")
+			g.site(ind + 1)
+			g.emit(ind, "}()")
 		case k < 20:
 			g.emit(ind, fmt.Sprintf("pkg.Tick(%d)", g.tick()))
 		case k < 31:
@@ -169,11 +177,13 @@ func (g *nestGen) body(ind, depth, fi int, deferred bool) {
 				g.emit(ind, "})")
 			}
 		case k < 93:
-			g.emit(ind, fmt.Sprintf("pkg.Stop(%d)", g.r.Intn(len(StopErrs))))
-			return
+			if g.hostExit(ind, "Stop", g.r.Intn(len(StopErrs))) {
+				return
+			}
 		case k < 95:
-			g.emit(ind, fmt.Sprintf("pkg.Fatal(%d)", g.r.Intn(len(FatalVals))))
-			return
+			if g.hostExit(ind, "Fatal", g.r.Intn(len(FatalVals))) {
+				return
+			}
 		default:
 			if depth < g.o.MaxDepth {
 				g.emit(ind, "if pkg.Zero() == 0 {")
@@ -182,6 +192,37 @@ func (g *nestGen) body(ind, depth, fi int, deferred bool) {
 			}
 		}
 	}
+}
+
+// hostExit emits a call of Env.Stop or Env.Fatal through one of the host entry points
+// that receive an Env: plain native, variadic native, method, method value, callback,
+// deferred native, deferred method value. It reports whether the statement ends the
+// body (the deferred forms do not).
+func (g *nestGen) hostExit(ind int, what string, i int) bool {
+	switch g.r.Intn(8) {
+	case 0, 1:
+		g.emit(ind, fmt.Sprintf("pkg.%s(%d)", what, i))
+	case 2:
+		g.emit(ind, fmt.Sprintf("pkg.%sVar(%d, \"a\", nil, 3)", what, i))
+	case 3:
+		g.emit(ind, fmt.Sprintf("pkg.NewT().%sM(%d)", what, i))
+	case 4:
+		g.emit(ind, "{")
+		g.emit(ind+1, fmt.Sprintf("m := pkg.NewT().%sM", what))
+		g.emit(ind+1, fmt.Sprintf("m(%d)", i))
+		g.emit(ind, "}")
+	case 5:
+		g.emit(ind, "pkg.Call(func() {")
+		g.emit(ind+1, fmt.Sprintf("pkg.%s(%d)", what, i))
+		g.emit(ind, "})")
+	case 6:
+		g.emit(ind, fmt.Sprintf("defer pkg.%sVar(%d)", what, i))
+		return false
+	default:
+		g.emit(ind, fmt.Sprintf("defer pkg.NewT().%sM(%d)", what, i))
+		return false
+	}
+	return true
 }
 
 func (g *nestGen) recoverStmt(ind int) {
